@@ -717,6 +717,134 @@ def c13_callbacks(prog: Program, run: Run) -> None:
         run.error(R, "no Optional per-ID state uses found in the on_* callbacks (anchor moved)")
 
 
+def _guard_len(fn: ast.AST, cfg: CFG, use: ast.AST, data: str) -> int:
+    """len(data) >= k established where ``use`` is evaluated: the branch conditions of its
+    statement plus the operands that short-circuit in front of it inside the same test
+    (`len(p) > 2 and p[2] == x`)."""
+    st = _stmt_of(fn, use)
+    node = cfg.node_of(st)
+    best = _min_len(cfg, node, data)
+    # short-circuit context
+    parents: Dict[int, ast.AST] = {}
+    scope = cfg.nodes[node].expr if cfg.nodes[node].kind in ("if", "while") else st
+    for x in ast.walk(scope):  # type: ignore[arg-type]
+        for c in ast.iter_child_nodes(x):
+            parents[id(c)] = x
+    cur: ast.AST = use
+    while id(cur) in parents:
+        par = parents[id(cur)]
+        if isinstance(par, ast.BoolOp):
+            pol = isinstance(par.op, ast.And)  # earlier `and` operands held, `or` ones failed
+            for v in par.values:
+                if v is cur or any(z is cur for z in ast.walk(v)):
+                    break
+                best = max(best, _len_bound(v, pol, data))
+        if isinstance(par, ast.IfExp) and cur is not par.test:
+            best = max(best, _len_bound(par.test, cur is par.body, data))
+        cur = par
+    return best
+
+
+def c13_consumers(prog: Program, run: Run) -> None:
+    """R1 (continued): what the package itself does with a frame / telegram it was handed must
+    not raise on its content either -- snoop's telegram handler (and the helpers it passes the
+    payload to) index the payload only under a sufficient length guard, and the frame callbacks
+    of the package's decoders do not convert a frame-derived number to an enumeration member
+    without a guard (``IsoTp(frame_type)`` raises ValueError for the reserved PCI types)."""
+    R = "C13.R1"
+    n = 0
+
+    def check_indexes(f: FuncInfo, data: str, depth: int, via: str) -> None:
+        nonlocal n
+        cfg = CFG(f.node)
+        for x in walk_no_nested(f.node):
+            if isinstance(x, ast.Subscript) and isinstance(x.value, ast.Name) and \
+                    x.value.id == data and not isinstance(x.slice, ast.Slice):
+                k = normalize(x.slice).const_value()
+                have = _guard_len(f.node, cfg, x, data)
+                n += 1
+                if k is not None and k >= 0 and have >= k + 1:
+                    run.ok(R, f.qual, f"`{ast.unparse(x)}` guarded by len({data}) >= {int(k) + 1}",
+                           loc(f, x))
+                elif k is not None and k < 0 and have >= -k:
+                    run.ok(R, f.qual, f"`{ast.unparse(x)}` guarded by len({data}) >= {int(-k)}",
+                           loc(f, x))
+                else:
+                    run.violation(R, f.qual, f"payload-index-unguarded-{ast.unparse(x.slice)}",
+                                  f"`{ast.unparse(x)}` ({via}) may raise IndexError: only "
+                                  f"len({data}) >= {have} is established; a truncated telegram "
+                                  "crashes the consumer", loc(f, x), stmt_key(_stmt_of(f.node, x)))
+            if depth < 2 and isinstance(x, ast.Call):
+                pos = [i for i, a in enumerate(x.args) if isinstance(a, ast.Name) and a.id == data]
+                kws = [k_.arg for k_ in x.keywords if isinstance(k_.value, ast.Name) and
+                       k_.value.id == data and k_.arg]
+                if not pos and not kws:
+                    continue
+                nm = call_name(x)
+                cands = [g for g in prog.iter_functions() if g.cls is None and g.name == nm]
+                if len(cands) != 1:
+                    continue
+                g = cands[0]
+                ps = g.params()
+                for i in pos:
+                    if i < len(ps):
+                        check_indexes(g, ps[i], depth + 1, f"{via} -> {g.qual}")
+                for k_ in kws:
+                    if k_ in ps:
+                        check_indexes(g, k_, depth + 1, f"{via} -> {g.qual}")
+    ht = prog.find_func("odxtools.cli.snoop:handle_telegram")
+    if ht is None:
+        run.error(R, "odxtools.cli.snoop:handle_telegram not found (anchor moved)")
+        return
+    check_indexes(ht, ht.params()[1], 0, "snoop.handle_telegram")
+    # enum conversions in frame callbacks: every class of the package (nested ones with a
+    # dynamic base such as snoop's decoder included) that defines one of the on_* hooks
+    base = prog.cls("IsoTpStateMachine")
+    hooks = {m for m in base.methods if m.startswith("on_")}
+
+    class _F:  # the little of FuncInfo the report needs
+        def __init__(self, mod, cname, node):
+            self.module, self.node, self.qual = mod, node, f"{cname}.{node.name}"
+
+        def params(self):
+            return [a.arg for a in self.node.args.posonlyargs + self.node.args.args]
+    cbs = []
+    for mod in prog.modules.values():
+        for c in ast.walk(mod.tree):
+            if isinstance(c, ast.ClassDef):
+                for m in c.body:
+                    if isinstance(m, (ast.FunctionDef, ast.AsyncFunctionDef)) and m.name in hooks:
+                        cbs.append(_F(mod, c.name, m))
+    for f in cbs:
+        if True:
+            params = set(f.params()[1:])
+            for x in walk_no_nested(f.node):
+                if not (isinstance(x, ast.Call) and len(x.args) == 1 and not x.keywords):
+                    continue
+                ch = attr_chain(x.func)
+                if not ch or not prog.has_cls(ch[-1]) or not prog.cls(ch[-1]).is_enum:
+                    continue
+                if not any(isinstance(y, ast.Name) and y.id in params
+                           for y in ast.walk(x.args[0])):
+                    continue
+                n += 1
+                caught = any(isinstance(t, ast.Try) and any(z is x for b_ in t.body
+                                                           for z in ast.walk(b_)) and any(
+                    h.type is None or ast.unparse(h.type) in ("ValueError", "Exception")
+                    for h in t.handlers) for t in walk_no_nested(f.node))
+                if caught:
+                    run.ok(R, f.qual, f"`{ast.unparse(x)}` is wrapped in except ValueError",
+                           loc(f, x))
+                else:
+                    run.violation(R, f.qual, f"enum-conversion-{ch[-1]}",
+                                  f"`{ast.unparse(x)}` converts a number taken from the frame to "
+                                  f"a member of {ch[-1]}: values without a member (reserved PCI "
+                                  "types) raise ValueError out of decode_rx_frame",
+                                  loc(f, x), stmt_key(_stmt_of(f.node, x)))
+    if n < 3:
+        run.error(R, "fewer than 3 payload uses found in the telegram consumers (anchor moved)")
+
+
 def _is_none_test(t: ast.AST, name: str) -> Optional[bool]:
     """True: `name is not None`; False: `name is None`; None: something else."""
     if isinstance(t, ast.Compare) and len(t.ops) == 1 and isinstance(t.left, ast.Name) and \
